@@ -3,7 +3,7 @@
 V="$(cd "$(dirname "$0")/.." && pwd)"
 cd "$V/harness" || exit 2
 export CARGO_NET_OFFLINE=true
-b() { local name=$1; shift; CARGO_TARGET_DIR=$V/target-$name cargo "$@" build --release --offline > $V/.build-target-$name.log 2>&1 || { echo "build $name failed"; tail -20 $V/.build-target-$name.log; return 1; }; }
+b() { local name=$1; shift; CARGO_TARGET_DIR=$V/target-$name cargo build --release --offline "$@" > $V/.build-target-$name.log 2>&1 || { echo "build $name failed"; tail -20 $V/.build-target-$name.log; return 1; }; }
 b default || exit 2
 P=""
 b fast-legacy --features fast-legacy & P="$P $!"
